@@ -12,7 +12,7 @@ import json, os, subprocess, sys, concurrent.futures as cf
 
 ROOT = os.path.dirname(os.path.dirname(os.path.abspath(__file__)))
 OUT = os.path.join(ROOT, "work", "mutations")
-BASE = "/var/tmp/wp/H-mut"
+BASE = os.environ.get("MUT_BASE", "/var/tmp/wp/H-mut")
 TESTS = ["tests/test_layers.py tests/test_ops.py tests/test_engine.py tests/test_activations.py -k 'conv or pool or fold or leaky'"]
 
 CPU, CT, FN, LY = "synapgrad/cpu_ops.py", "synapgrad/conv_tools.py", "synapgrad/nn/functional.py", "synapgrad/nn/layers.py"
@@ -44,11 +44,11 @@ M = {
  "m09": ("nn.Conv2d: padding broadcast swapped (W, H)", "mutation",
          [(LY, "        padding = np.broadcast_to(padding, 2)\n        \n        self.in_channels = in_channels", "        padding = np.broadcast_to(padding, 2)[::-1]\n        \n        self.in_channels = in_channels", 1)]),
  "m10": ("get_conv2d_output_size: W axis uses dilation[0]", "mutation",
-         [(CT, "    lW = int(np.floor((W_with_pad - dilation[1] * (kernel_size[1] - 1) - 1) / stride[1] + 1))", "    lW = int(np.floor((W_with_pad - dilation[0] * (kernel_size[1] - 1) - 1) / stride[1] + 1))", 1)]),
+         [(CT, "    lW = int(np.floor((W_with_pad - dilation[1] * (kernel_size[1] - 1) - 1) / stride[1] + 1))", "    lW = int(np.floor((W_with_pad - dilation[0] * (kernel_size[1] - 1) - 1) / stride[1] + 1))", 2)]),
  "m11": ("extract_windows: dilation applied to the strides in reversed axis order", "mutation",
          [(CT, "    win_stride[-len(step) :] *= dilation\n", "    win_stride[-len(step) :] *= dilation[::-1]\n", 1)]),
  "m12": ("output size: round instead of floor", "mutation",
-         [(CT, "int(np.floor(", "int(np.round(", 3)]),
+         [(CT, "int(np.floor(", "int(np.round(", 7)]),
  "m14": ("avg_pool2d_backward divides by kH*kH", "mutation",
          [(CPU, "    windows_grad = mean_backward(grad, windows.reshape(*windows.shape[:-2], -1).shape, -1, False)",
            "    windows_grad = mean_backward(grad, windows.shape[:-2] + (windows.shape[-2] ** 2,), -1, False)[..., :windows.shape[-2] * windows.shape[-1]] if windows.shape[-2] >= windows.shape[-1] else mean_backward(grad, windows.reshape(*windows.shape[:-2], -1).shape, -1, False) * (windows.shape[-1] / windows.shape[-2])", 1)]),
@@ -63,6 +63,19 @@ M = {
          [(CPU, "    if bias is not None: conv_out += bias.reshape(-1, 1, 1, 1)", "    if bias is not None: conv_out += bias.reshape(1, -1, 1, 1) if bias.size == conv_out.shape[1] else bias.reshape(-1, 1, 1, 1)", 1)]),
  "m22": ("col2im_fast (fold / unfold backward): moveaxis(a, 2, 0) -> a.transpose(2, 1, 0)", "mutation",
          [(CT, "        windows = np.moveaxis(a, 2, 0).reshape(lH, lW, N, C, kernel_size[0], kernel_size[1])", "        windows = a.transpose(2, 1, 0).reshape(lH, lW, N, C, kernel_size[0], kernel_size[1]) if a.shape[0] == a.shape[1] else np.moveaxis(a, 2, 0).reshape(lH, lW, N, C, kernel_size[0], kernel_size[1])", 1)]),
+ "n3": ("place_windows: dilation taken in reversed axis order", "mutation",
+        [(CT, "            for i, w, s, d in zip(ind, kernel_size, step, dilation)", "            for i, w, s, d in zip(ind, kernel_size, step, dilation[::-1])", 1)]),
+ "n4": ("extract_windows: stride broadcast in reversed axis order", "mutation",
+        [(CT, "    step = np.broadcast_to(step, dims)\n    padding = np.broadcast_to(padding, dims)\n    \n    if dims == 1: sizes", "    step = np.broadcast_to(step, dims)[::-1]\n    padding = np.broadcast_to(padding, dims)\n    \n    if dims == 1: sizes", 1)]),
+ "n5": ("get_conv2d_output_size: W axis padded with padding[0]", "mutation",
+        [(CT, "    W_with_pad = W + 2 * padding[1]\n    \n    lH", "    W_with_pad = W + 2 * padding[0]\n    \n    lH", 1)]),
+ "n8": ("conv1d_forward ignores dilation", "mutation",
+        [(CPU, "    kernel_size = kW\n    \n    windows = extract_windows(a, kernel_size, stride, padding, dilation)\n    \n    conv_out", "    kernel_size = kW\n    \n    windows = extract_windows(a, kernel_size, stride, padding, 1)\n    \n    conv_out", 1)]),
+ "n12": ("F.unfold drops its pad_value argument", "mutation",
+         [(FN, "            conv_tools.im2col_fast(x.data, kernel_size, dilation, stride, padding, pad_value, as_unfold=True)", "            conv_tools.im2col_fast(x.data, kernel_size, dilation, stride, padding, as_unfold=True)", 1)]),
+ "n17": ("nn.Unfold.forward passes stride and dilation swapped", "mutation",
+         [(LY, "        return F.unfold(x, kernel_size=self.kernel_size, stride=self.stride, padding=self.padding,\n                       dilation=self.dilation, pad_value=self.pad_value)",
+           "        return F.unfold(x, kernel_size=self.kernel_size, stride=self.dilation, padding=self.padding,\n                       dilation=self.stride, pad_value=self.pad_value)", 1)]),
  "h13": ("HARMLESS by the property: max pooling backward routes a tie to the LAST maximum (still a subgradient)", "harmless",
          [(CPU, "    windows_grad = max_backward(grad, windows.reshape(*windows.shape[:-2], -1), -1, False)",
            "    _wf = windows.reshape(*windows.shape[:-2], -1)\n    windows_grad = max_backward(grad, _wf, -1, False, max_indices=(_wf.shape[-1] - 1) - np.argmax(_wf[..., ::-1], axis=-1, keepdims=True))", 1)]),
